@@ -5,6 +5,7 @@ import (
 	"encoding/json"
 	"fmt"
 	"math/rand"
+	"os"
 	"os/exec"
 	"path/filepath"
 	"sort"
@@ -147,7 +148,7 @@ func corpusLexJobs(c *Ctx, startIndex int) []*GenJob {
 		if len(e.Grammar.Lex) == 0 {
 			continue
 		}
-		if !regdefsInDomain(e.Grammar) {
+		if os.Getenv("VERIF_S1S2_ONLY") != "" && !regdefsInDomain(e.Grammar) {
 			skipped++
 			continue
 		}
